@@ -7,6 +7,7 @@ CONSTANTS
   MaxFeed = 2
   MaxEof = 3
   SlowSet = {"C", "D", "X"}
+  CfgWrite = FALSE
 INVARIANT MonitorQuiet
 INVARIANT OneReceivePath
 INVARIANT LockDiscipline
